@@ -712,6 +712,95 @@ func ruleP11Precedence(p *Prog, r *Report) {
 			}
 			return false
 		}
+		// apply may be a thin wrapper around a method that decides (format, whether to reformat):
+		// the callback is called with that format exactly when the flag holds; the three cases
+		// are then read off the returns of the deciding method
+		viaDecider := false
+		if len(calls) == 1 {
+			c := calls[0]
+			var flagCall ssa.CallInstruction
+			onlyFlag := true
+			for _, g := range guardsOf(c.Block()) {
+				ex, isEx := g.Cond.(*ssa.Extract)
+				if !isEx || ex.Index != 1 || !g.Pol {
+					onlyFlag = false
+					continue
+				}
+				if dc, isCall := ex.Tuple.(*ssa.Call); isCall {
+					flagCall = dc
+				}
+			}
+			if flagCall != nil && onlyFlag {
+				d := rawStaticCallee(flagCall)
+				argEx, isEx := c.Common().Args[0].(*ssa.Extract)
+				if d != nil && p.inModFn(d) && isEx && argEx.Tuple == ssa.Value(flagCall.(*ssa.Call)) && argEx.Index == 0 &&
+					len(flagCall.Common().Args) == 2 && strip(flagCall.Common().Args[0]) == ssa.Value(ap.Params[0]) && strip(flagCall.Common().Args[1]) == ssa.Value(ap.Params[1]) {
+					df := originFn(d)
+					if len(df.Blocks) == 0 {
+						df = d
+					}
+					goodD, skipD := len(df.Params) == 2, true
+					sawV, sawA, nEmit := false, false, 0
+					for _, ret := range returnsOf(df) {
+						if len(ret.Results) != 2 {
+							goodD = false
+							continue
+						}
+						gs := guardsOf(ret.Block())
+						flag, isK := constBool(ret.Results[1])
+						if !isK {
+							goodD = false
+							continue
+						}
+						if !flag {
+							// not reformatted: for the no-reformat directive and under no other condition
+							if !(len(gs) == 1 && modeGuard(gs, 0, true)) {
+								skipD = false
+							}
+							continue
+						}
+						nEmit++
+						if !modeGuard(gs, 0, false) {
+							goodD = false
+						}
+						val := strip(ret.Results[0])
+						if ph, ok := val.(*ssa.Phi); ok && len(ph.Edges) == 2 {
+							for i, e := range ph.Edges {
+								pb := ph.Block().Preds[i]
+								egs := append(guardsOf(pb), edgeGuard(pb, ph.Block())...)
+								if deref(e) == ssa.Value(df.Params[1]) {
+									sawA = true
+								}
+								if _, fld := fieldLoad(e); fld == "Value" && modeGuard(egs, 1, true) {
+									sawV = true
+								}
+							}
+							continue
+						}
+						if _, fld := fieldLoad(val); fld == "Value" {
+							if modeGuard(gs, 1, true) {
+								sawV = true
+							} else {
+								goodD = false
+							}
+							continue
+						}
+						if deref(val) == ssa.Value(df.Params[1]) {
+							if modeGuard(gs, 1, false) {
+								sawA = true
+							} else {
+								goodD = false
+							}
+							continue
+						}
+						goodD = false
+					}
+					r.check(skipD && nEmit > 0, rule, "directive:apply:always", p.pos(df.Pos()), "the reformatting is skipped for the no-reformat directive only", fnName(df)+" skips the reformatting in more cases than the no-reformat directive (e.g. an explicit format that equals the zero value: 12-hour clock, slash dates)")
+					r.check(goodD && sawV && sawA, rule, "directive:apply", p.pos(df.Pos()), "no-reformat does nothing; explicit uses its own value; auto uses the elected style", fnName(df)+" does not implement none / explicit / auto-style")
+					calls, viaDecider = nil, true
+				}
+			}
+		}
 		good := len(calls) >= 1
 		sawValue, sawAuto := false, false
 		stops := map[*ssa.BasicBlock]bool{}
@@ -805,7 +894,9 @@ func ruleP11Precedence(p *Prog, r *Report) {
 			}
 			r.check(skipOK, rule, "directive:apply:always", p.pos(ap.Pos()), "the reformat callback is skipped for the no-reformat directive only", "ReformatDirective.apply skips the reformatting in more cases than the no-reformat directive (e.g. an explicit format that equals the zero value: 12-hour clock, slash dates)")
 		}
-		r.check(good, rule, "directive:apply", p.pos(ap.Pos()), "no-reformat does nothing; explicit uses its own value; auto uses the elected style", "ReformatDirective.apply does not implement none / explicit / auto-style")
+		if !viaDecider {
+			r.check(good, rule, "directive:apply", p.pos(ap.Pos()), "no-reformat does nothing; explicit uses its own value; auto uses the elected style", "ReformatDirective.apply does not implement none / explicit / auto-style")
+		}
 	}
 	for name, mode := range map[string]int64{"NoReformat": 0, "ReformatExplicitly": 1, "ReformatAutoStyle": 2} {
 		f := p.fn("klog/parser/reconciling", name)
